@@ -4,6 +4,7 @@
 from __future__ import annotations
 
 from glob import glob
+from pathlib import PurePath
 import argparse
 import errno
 import os
@@ -279,6 +280,11 @@ def get_destdir_path(destdir: str, fullprefix: str, path: str) -> str:
         output = destdir_join(destdir, path)
     else:
         output = os.path.join(fullprefix, path)
+    if destdir:
+        # '..' components of an install dir must not lead out of the staging directory
+        root = PurePath(os.path.normpath(destdir)).parts
+        if PurePath(os.path.normpath(output)).parts[:len(root)] != root:
+            raise MesonException(f'Install path {path!r} is outside of DESTDIR {destdir!r}.')
     return output
 
 
